@@ -22,8 +22,11 @@ import (
 	webp "github.com/deepteams/webp"
 	"github.com/deepteams/webp/animation"
 	"github.com/deepteams/webp/mux"
+	"github.com/deepteams/webp/sharpyuv"
 
 	"verif/ev"
+	"verif/gen/vp8"
+	"verif/gen/vp8l"
 	"verif/img"
 )
 
@@ -632,8 +635,135 @@ func c10Worker(args []string) int {
 		c10StressChild(c, r, out)
 	case "psec":
 		c10PsecChild(c, out)
+	case "cold":
+		k, _ := strconv.Atoi(args[3])
+		c10ColdChild(c, k, out)
 	}
 	return 0
+}
+
+// ---------------- child: cold start ----------------
+//
+// Every other child computes its solo references first, so whatever the library initialises lazily (lookup tables
+// behind sync.Once, pools, dispatch tables) is warm before the first concurrent call. Here the very first library
+// calls of a fresh process are concurrent: eight goroutines are released together into the same operation, and each
+// result must equal the one the operation gives afterwards, alone. Nothing of the library runs while the operations
+// are set up: pictures come from the harness's generators, streams from its synthesizers.
+func c10ColdOps(c *ev.Ctx) []c10Op {
+	r := rng(c, 4242)
+	var ops []c10Op
+	add := func(n string, f func() string) { ops = append(ops, c10Op{n, f}) }
+	enc := func(name string, m image.Image, f func(o *webp.EncoderOptions)) {
+		add("enc/"+name, func() string {
+			o := webp.DefaultOptions()
+			f(o)
+			var b bytes.Buffer
+			if err := webp.Encode(&b, m, o); err != nil {
+				return errDigest(err)
+			}
+			return ev.Sum(b.Bytes())
+		})
+	}
+	photo := img.Gen(r, "photo", "opaque", 96, 64)
+	trans := img.Gen(r, "tiles", "gradient", 80, 72)
+	enc("lossy-sharpyuv", photo, func(o *webp.EncoderOptions) { o.UseSharpYUV = true })
+	enc("lossy-default", photo, func(o *webp.EncoderOptions) {})
+	enc("lossy-alpha", trans, func(o *webp.EncoderOptions) { o.AlphaFiltering = 2 })
+	enc("lossless", trans, func(o *webp.EncoderOptions) { o.Lossless = true })
+	enc("lossy-dither-m6", photo, func(o *webp.EncoderOptions) { o.Preprocessing = 2; o.Method = 6 })
+	rgb := make([]byte, 64*48*3)
+	r.Read(rgb)
+	add("sharpyuv/Convert", func() string {
+		y := image.NewYCbCr(image.Rect(0, 0, 64, 48), image.YCbCrSubsampleRatio420)
+		if err := sharpyuv.Convert(rgb, 64, 48, 64*3, y, sharpyuv.DefaultOptions()); err != nil {
+			return errDigest(err)
+		}
+		return ev.Sum(y.Y) + ev.Sum(y.Cb) + ev.Sum(y.Cr)
+	})
+	add("sharpyuv/gamma", func() string {
+		var b []byte
+		for v := uint32(0); v < 1<<16; v += 97 {
+			g := sharpyuv.LinearToGamma(v, 10, sharpyuv.TransferSRGB)
+			l := sharpyuv.GammaToLinear(uint16(v>>6), 10, sharpyuv.TransferSRGB)
+			b = append(b, byte(g), byte(g>>8), byte(l), byte(l>>8), byte(l>>16))
+		}
+		return ev.Sum(b)
+	})
+	vp, _ := vp8.Synthesize(r, vp8.Params{W: 72, H: 56})
+	vfile := vp8.WrapRIFF(vp)
+	lp := vp8l.DefaultParams()
+	lp.W, lp.H = 61, 47
+	vl, _ := vp8l.Synthesize(r, lp)
+	lfile := vp8l.WrapRIFF(vl)
+	alph, _ := c04ALPH(r, 72, 56)
+	afile := riffWrap(vp8xChunk(0x10, 72, 56), chunk("ALPH", alph), chunk("VP8 ", vp))
+	for _, f := range []struct {
+		n string
+		d []byte
+	}{{"synth-vp8", vfile}, {"synth-vp8l", lfile}, {"synth-vp8+alph", afile}} {
+		f := f
+		add("dec/"+f.n, func() string {
+			m, err := webp.Decode(bytes.NewReader(f.d))
+			if err != nil {
+				return errDigest(err)
+			}
+			return imgDigest(m)
+		})
+	}
+	add("anim/encode+play", func() string {
+		var b bytes.Buffer
+		e := animation.NewEncoder(&b, 80, 72, &animation.EncodeOptions{Quality: 60, AllowMixed: true})
+		for k := 0; k < 3; k++ {
+			n := image.NewNRGBA(trans.Rect)
+			copy(n.Pix, trans.Pix)
+			for j := 0; j < 30; j++ {
+				n.Pix[n.PixOffset(3+j, 5+k)] ^= 0x55
+			}
+			if err := e.AddFrame(n, 30*time.Millisecond); err != nil {
+				return errDigest(err)
+			}
+		}
+		if err := e.Close(); err != nil {
+			return errDigest(err)
+		}
+		p, err := c15Pixels(b.Bytes(), true)
+		if err != nil {
+			return errDigest(err)
+		}
+		return ev.Sum(b.Bytes()) + ev.Sum(p)
+	})
+	return ops
+}
+
+func c10ColdChild(c *ev.Ctx, k int, out *json.Encoder) {
+	ops := c10ColdOps(c)
+	op := ops[k%len(ops)]
+	const ng = 8
+	res := make([]string, ng)
+	var ready, done sync.WaitGroup
+	start := make(chan struct{})
+	for g := 0; g < ng; g++ {
+		ready.Add(1)
+		done.Add(1)
+		go func(g int) {
+			defer done.Done()
+			ready.Done()
+			<-start
+			res[g] = op.Run()
+		}(g)
+	}
+	ready.Wait()
+	close(start)
+	done.Wait()
+	solo := op.Run()
+	for g := 0; g < ng; g++ {
+		if res[g] != solo {
+			out.Encode(c10Msg{Kind: "viol", I: k, Class: "concurrent-differs-from-solo", Desc: "cold start " + op.Name,
+				Detail: fmt.Sprintf("first calls of the process, %d goroutines at once: goroutine %d got %q, the same call alone afterwards: %q", ng, g, res[g], solo)})
+			break
+		}
+	}
+	out.Encode(c10Msg{Kind: "stat", N: ng, Stats: map[string]int{"cold_starts": 1, "cold_start:" + op.Name: 1}})
 }
 
 // ---------------- parent ----------------
@@ -648,6 +778,7 @@ func runC10(c *ev.Ctx) {
 		"1..mbW in order, phase B row y only after row y is complete, waits balanced; (e) deadlock = Go's all-goroutines-asleep fatal or a watchdog QUIT dump parked in rowSync.waitFor; " +
 		"(f) the coders' own parallel sections (hash chain, predictor tiles, histogram cost/remap, inverse transforms, ARGB conversion, lossy import/analysis/row pipeline) driven above their size " +
 		"thresholds with forced worker counts and 3 calls in flight on different pictures, std and -race builds: result == one-worker solo result, sections actually entered are counted by the worker hook; " +
+		"(g) cold starts: fresh processes whose first library calls are 8 goroutines released together into one operation (11 operations incl. sharp-YUV, dithering, alpha, the sharpyuv package, synthesized streams), each result == the same call alone afterwards, std and -race builds; " +
 		"distinct = distinct interleaving signatures (hash of claim/wait/broadcast order)"
 	exe := os.Getenv("VERIF_EXE")
 	raceExe := os.Getenv("VERIF_EXE_RACE")
@@ -757,6 +888,25 @@ func runC10(c *ev.Ctx) {
 		handle("psec", msgs, se, err)
 	}()
 	wg.Wait()
+	// (g): cold starts, std build (short processes, four at a time)
+	nCold := len(c10ColdOps(c))
+	{
+		sem := make(chan struct{}, 4)
+		var cwg sync.WaitGroup
+		for rep := 0; rep < c.N(2, 12); rep++ {
+			for k := 0; k < nCold; k++ {
+				cwg.Add(1)
+				sem <- struct{}{}
+				go func(k int) {
+					defer cwg.Done()
+					defer func() { <-sem }()
+					msgs, se, err := run(exe, nil, 300*time.Second, "cold", strconv.Itoa(k))
+					handle("cold", msgs, se, err)
+				}(k)
+			}
+		}
+		cwg.Wait()
+	}
 	// (a): race build (on an otherwise idle machine)
 	if raceExe == "" {
 		c.Fatal("race-detector build not available (VERIF_EXE_RACE unset)")
@@ -780,6 +930,12 @@ func runC10(c *ev.Ctx) {
 			handle("race-perturb", msgs, se, err)
 		}
 		rwg.Wait()
+		for rep := 0; rep < c.N(1, 4); rep++ { // cold starts under the race detector: an unsynchronised lazy initialisation is a report
+			for k := 0; k < nCold; k++ {
+				msgs, se, err = run(raceExe, []string{"GORACE=halt_on_error=0 log_path=" + logp}, 300*time.Second, "cold", strconv.Itoa(k))
+				handle("race-cold", msgs, se, err)
+			}
+		}
 		logs, _ := filepath.Glob(logp + ".*")
 		reports := 0
 		seen := map[string]bool{}
